@@ -1,7 +1,8 @@
 //! `kv session`: a history of operations on ONE runtime instance (koto::Koto), for C07.
 //!
 //! job:    {id, limit_ms?, ops: [{op: "run", src, run_tests?} | {op: "call", name, args: [int...]} |
-//!                              {op: "display", name} | {op: "call_value", kind}]}
+//!                              {op: "display", name} | {op: "call_value", kind} | {op: "clear_cache"} |
+//!                              {op: "write_file", path, src}]}
 //! result: {id, steps: [{status, value?, err_class?, state: {d, r, b, q, t}, events, x?, lst?}]}
 
 use crate::capture::{Capture, take_panic};
@@ -87,6 +88,20 @@ pub fn session_job(job: &J) -> J {
                     match koto.exports().get(name) {
                         Some(f) => koto.call_function(f, &args[..]),
                         None => Err(koto::Error::MissingFunction(name.into())),
+                    }
+                }
+                "clear_cache" => {
+                    // forget the compiled and the run modules: the next import loads from disk again
+                    koto.clear_module_cache();
+                    Ok(KValue::Null)
+                }
+                "write_file" => {
+                    // (re)write a module file of the scenario between two operations
+                    let path = op.get("path").and_then(|v| v.as_str()).unwrap_or("");
+                    let src = op.get("src").and_then(|v| v.as_str()).unwrap_or("");
+                    match std::fs::write(path, src) {
+                        Ok(()) => Ok(KValue::Null),
+                        Err(e) => Err(koto::Error::StringError(format!("write_file: {e}"))),
                     }
                 }
                 "display" => {
